@@ -604,6 +604,23 @@ class _State:
                         self.env[s.target.id] = v
                 a = self.doc_block(s.body, ctx + [("for", s, True)], sw, ew)
                 if a:
+                    # an iteration that can be abandoned (`continue` / `break` of this loop, e.g. in an exception handler) may write nothing
+                    def _own_jumps(stmts):
+                        for st in stmts:
+                            if isinstance(st, (ast.Continue, ast.Break)):
+                                yield st
+                            elif isinstance(st, (ast.For, ast.While, ast.FunctionDef, ast.AsyncFunctionDef, ast.ClassDef)):
+                                continue
+                            else:
+                                for fld in ("body", "orelse", "finalbody"):
+                                    yield from _own_jumps(getattr(st, fld, []) or [])
+                                for h in getattr(st, "handlers", []) or []:
+                                    yield from _own_jumps(h.body)
+
+                    if any(True for _ in _own_jumps(s.body)):
+                        skip = ast.Constant(value="iteration not abandoned")
+                        ast.copy_location(skip, s)
+                        a = [Opt(Guard(skip, True, f), a)]
                     items.append(Rep(s, f, a))
                 continue
             elif isinstance(s, (ast.With,)):
@@ -612,6 +629,13 @@ class _State:
             elif isinstance(s, ast.Try) and not s.handlers and not s.orelse:
                 # try: <writes> finally: <close / publish>: on the path that completes, the body's writes then the finaliser's
                 items += self.doc_block(s.body, ctx, sw, ew)
+                items += self.doc_block(s.finalbody, ctx, sw, ew)
+                continue
+            elif isinstance(s, ast.Try) and s.handlers and not any(isinstance(n, ast.Call) and (any(t in sw or t in ew for t in p.resolve_call(n, f)) or (isinstance(n.func, ast.Attribute) and n.func.attr == "write")) for h in s.handlers for st in h.body for n in ast.walk(st)):
+                # try: <build / write> except ...: <no writes>: what the body writes is written unless it raises half-way; the handlers add nothing
+                # (a handler that abandons the loop iteration is accounted for at the loop)
+                items += self.doc_block(s.body, ctx, sw, ew)
+                items += self.doc_block(s.orelse, ctx, sw, ew)
                 items += self.doc_block(s.finalbody, ctx, sw, ew)
                 continue
             elif isinstance(s, (ast.While, ast.Try)):
